@@ -96,8 +96,8 @@ func (b *Batch) Put(key []byte, value []byte) error {
 		// 如果缓存命中则直接修改缓存
 		// 暂存记录此前可能已被 Delete 标记为墓碑值
 		logRecord.Type = datafile.LogRecordNormal
-		logRecord.Key = key
-		logRecord.Value = value
+		// 暂存记录已持有 key 的副本, value 需拷贝, 不得引用调用方的切片
+		logRecord.Value = append(logRecord.Value[:0], value...)
 		b.cachedDataSize += newSize - oldSize
 	}
 	return nil
